@@ -41,6 +41,12 @@ partial def loop {σ : Type} (h : IO.FS.Stream) (out : IO.FS.Stream) (step : σ 
   let line ← h.getLine
   if line.isEmpty then return ()
   let line := (line.dropEndWhile (fun c => c = '\n' || c = '\r')).toString
+  -- `scmark <token> <seed> …` names the scenario the following lines belong to (so that a difference can be re-run by
+  -- the check); it is not an operation of any model
+  if line.startsWith "scmark " then
+    out.putStrLn "ok"
+    loop h out step s
+  else
   let (s', o) := step s (toks line)
   out.putStrLn o
   loop h out step s'
